@@ -17,6 +17,7 @@ import (
 	esmtypes "github.com/comdex-official/comdex/x/esm/types"
 	"github.com/comdex-official/comdex/x/lend"
 	lendtypes "github.com/comdex-official/comdex/x/lend/types"
+	liqv1types "github.com/comdex-official/comdex/x/liquidation/types"
 	liqV2types "github.com/comdex-official/comdex/x/liquidationsV2/types"
 	markettypes "github.com/comdex-official/comdex/x/market/types"
 )
@@ -306,7 +307,14 @@ func c08Project(f *c08Fix, ctx sdk.Context, tr *tracer) {
 			dp = append(dp, r.PoolID)
 		}
 	}
-	tr.p("fl %s %s", c08Ints(kl), c08Ints(dp))
+	// borrow positions the generation-1 liquidation holds a locked-vault record for
+	var v1 []uint64
+	for _, lv := range f.a.LiquidationKeeper.GetLockedVaults(ctx) {
+		if lv.GetBorrowMetaData() != nil {
+			v1 = append(v1, lv.OriginalVaultId)
+		}
+	}
+	tr.p("fl %s %s %s", c08Ints(kl), c08Ints(dp), c08Ints(v1))
 	tr.p("end")
 }
 
@@ -483,6 +491,7 @@ func TestC08(t *testing.T) {
 		now := baseTime
 		height := int64(2)
 		nops := 20 + cr.intn(31)
+		v1case := cr.chance(12)
 		tr.p("case %d %d", ci, nops)
 		c08Project(f, ctx, tr)
 		for oi := 0; oi < nops; oi++ {
@@ -550,8 +559,12 @@ func TestC08(t *testing.T) {
 			}
 			// 100..105: hand-over of a position to a liquidation auction; 106..115: a bid on the auction of a handed-over
 			// position; 116..121 RepayWithdraw; 122..126 FundModuleAccounts; 127..129 FundReserveAccounts
-			// 130, 131: esm MsgKillSwitch; 132: pool depreciation (governance)
+			// 130, 131: esm MsgKillSwitch; 132: pool depreciation (governance); 133: generation-1 hand-over
+			// (x/liquidation MsgLiquidateBorrow), only in one history out of eight and in its second half
 			kind := cr.intn(133)
+			if v1case && oi >= nops/2 && cr.chance(10) {
+				kind = 133
+			}
 			warm := oi < 5 // the first messages of a history supply liquidity
 			if ks, found := a.EsmKeeper.GetKillSwitchData(ctx, f.app); found && ks.BreakerEnable && cr.chance(35) {
 				kind = 130 // the switch is on: most likely switched off again soon
@@ -570,6 +583,9 @@ func TestC08(t *testing.T) {
 			}
 			if len(flagged) == 0 && ((kind >= 106 && kind < 116 && cr.chance(85)) || (len(borrows) > 0 && cr.chance(6))) {
 				kind = 100 // nothing to bid on yet: hand a position over first
+			}
+			if kind == 133 && len(flagged) == len(borrows) {
+				kind = 40 // no open position to hand over: borrow first
 			}
 			if warm {
 				kind = 0
@@ -632,6 +648,48 @@ func TestC08(t *testing.T) {
 				amt := c08FundAmount(cr)
 				msg = lendtypes.NewMsgFundModuleAccounts(poolID, asset, us, sdk.NewCoin(denom, sdk.NewIntFromBigInt(amt)))
 				line = fmt.Sprintf("fundmod %d %d %d %d %s", un, poolID, asset, f.denomID[denom], amt)
+			case kind >= 133: // generation 1: x/liquidation MsgLiquidateBorrow
+				b, _ := pickBorrow()
+				if !cr.chance(10) { // an open position; its collateral price falls first
+					var open []lendtypes.BorrowAsset
+					for _, x := range borrows {
+						if !x.IsLiquidated {
+							open = append(open, x)
+						}
+					}
+					b = open[cr.intn(len(open))]
+				}
+				if !b.IsLiquidated && b.PairID != 0 && cr.chance(85) {
+					pr, _ := k.GetLendPair(ctx, b.PairID)
+					if tw, ok := a.MarketKeeper.GetTwa(ctx, pr.AssetIn); ok && tw.Twa > 10 {
+						// to just below the price at which the position sits on its liquidation threshold
+						np := tw.Twa * uint64(30+cr.intn(55)) / 100
+						ai, _ := a.AssetKeeper.GetAsset(ctx, pr.AssetIn)
+						ao, _ := a.AssetKeeper.GetAsset(ctx, pr.AssetOut)
+						rp, _ := k.GetAssetRatesParams(ctx, pr.AssetIn)
+						var ratio sdk.Dec
+						var rerr error
+						if pn, _ := safely(func() {
+							ratio, rerr = k.CalculateCollateralizationRatio(ctx, b.AmountIn.Amount, ai, b.AmountOut.Amount.Add(b.InterestAccumulated.TruncateInt()), ao)
+						}); !pn && rerr == nil && ratio.IsPositive() && rp.LiquidationThreshold.IsPositive() {
+							thr := rp.LiquidationThreshold
+							if b.BridgedAssetAmount.Amount.IsPositive() {
+								thr = thr.MulInt64(3).QuoInt64(4)
+							}
+							x := sdk.NewDec(int64(tw.Twa)).Mul(ratio).Quo(thr).MulInt64(int64(60 + cr.intn(39))).QuoInt64(100).TruncateInt64()
+							if x >= 1 {
+								np = uint64(x)
+							}
+						}
+						a.MarketKeeper.SetTwa(ctx, markettypes.TimeWeightedAverage{AssetID: pr.AssetIn, ScriptID: 12, Twa: np, CurrentIndex: 0,
+							IsPriceActive: true, PriceValue: []uint64{np}, DiscardedHeightDiff: -1})
+						tr.p("op %d setprice %d %d ok", dt, pr.AssetIn, np)
+						c08Project(f, ctx, tr)
+						dt = 0
+					}
+				}
+				msg = &liqv1types.MsgLiquidateBorrowRequest{From: us, BorrowId: b.ID}
+				line = c08V1Env(f, ctx, b.ID, msg)
 			case kind >= 130 && kind < 132: // esm MsgKillSwitch by an admin (sometimes by somebody else)
 				admins := a.EsmKeeper.AdminParam(ctx)
 				from, isAdmin := us, false
